@@ -257,3 +257,40 @@ def exception_hierarchy(repo=None):
             parents[a] = parents[b]
             attrs[a] = attrs.get(b, {})
     return {"ids": ids, "anc": anc, "attr": attr, "parents": parents, "for_code": table}
+
+
+_ATTR_STORES = {}
+
+
+def attribute_stores(repo=None):
+    """attr name -> [(relative file, line, enclosing class or None, enclosing function or None, receiver text,
+    base class names of the enclosing class)] for every attribute store (`x.attr = ...`, augmented, annotated, del)
+    in the package's .py files (the compiled .pyx modules are not scanned)."""
+    repo = repo or REPO
+    if repo in _ATTR_STORES:
+        return _ATTR_STORES[repo]
+    out = {}
+
+    def walk(node, cls, fn, rel, bases=()):
+        for ch in ast.iter_child_nodes(node):
+            if isinstance(ch, ast.ClassDef):
+                walk(ch, ch.name, None, rel, tuple(ast.unparse(b).split(".")[-1] for b in ch.bases))
+            elif isinstance(ch, (ast.FunctionDef, ast.AsyncFunctionDef)):
+                walk(ch, cls, ch.name if fn is None else fn, rel, bases)
+            else:
+                if isinstance(ch, ast.Attribute) and isinstance(ch.ctx, (ast.Store, ast.Del)):
+                    out.setdefault(ch.attr, []).append((rel, ch.lineno, cls, fn, ast.unparse(ch.value), bases))
+                walk(ch, cls, fn, rel, bases)
+    root = os.path.join(repo, "aiokafka")
+    for dp, dn, fns in os.walk(root):
+        for f in sorted(fns):
+            if f.endswith(".py"):
+                path = os.path.join(dp, f)
+                try:
+                    tree = ast.parse(open(path).read())
+                except SyntaxError:
+                    continue
+                walk(tree, None, None, os.path.relpath(path, repo))
+    # setattr(x, "name", ...) would escape this scan
+    _ATTR_STORES[repo] = out
+    return out
